@@ -1,1 +1,534 @@
+//! Automaton specifications: AutomatonBuilder call sequences, their reading as a transition table,
+//! classification (must-accept / must-reject / grey), and generators incl. structured families.
 
+use crate::util::Rng;
+use std::fmt::Write as _;
+
+pub const MAXC: u32 = 0x2FFFF;
+
+#[derive(Clone, Debug, PartialEq)]
+pub enum Call {
+    Trans(u32, u32, u32, u32), // state label, lo, hi, target label
+    Default(u32, u32),
+    Final(u32),
+}
+
+#[derive(Clone, Debug)]
+pub struct Spec {
+    pub init: u32,
+    pub calls: Vec<Call>,
+}
+
+#[derive(Clone, Debug, Default)]
+pub struct StateSpec {
+    pub label: u32,
+    pub trans: Vec<(u32, u32, usize)>, // lo, hi, target index
+    pub default: Option<usize>,
+    pub is_final: bool,
+}
+
+#[derive(Clone, Copy, Debug, PartialEq)]
+pub enum Class {
+    MustAccept,
+    MustReject,
+    Grey,
+}
+
+impl Spec {
+    pub fn to_text(&self) -> String {
+        let mut o = format!("init {}\n", self.init);
+        for c in &self.calls {
+            match c {
+                Call::Trans(s, a, b, t) => {
+                    let _ = writeln!(o, "t {} {:x} {:x} {}", s, a, b, t);
+                }
+                Call::Default(s, t) => {
+                    let _ = writeln!(o, "d {} {}", s, t);
+                }
+                Call::Final(s) => {
+                    let _ = writeln!(o, "f {}", s);
+                }
+            }
+        }
+        o
+    }
+
+    pub fn from_text(t: &str) -> Result<Spec, String> {
+        let mut init = 0;
+        let mut calls = Vec::new();
+        for line in t.lines() {
+            let tk: Vec<&str> = line.split_whitespace().collect();
+            if tk.is_empty() {
+                continue;
+            }
+            let d = |s: &str| s.parse::<u32>().map_err(|e| e.to_string());
+            let h = |s: &str| u32::from_str_radix(s, 16).map_err(|e| e.to_string());
+            match (tk[0], tk.len()) {
+                ("init", 2) => init = d(tk[1])?,
+                ("t", 5) => calls.push(Call::Trans(d(tk[1])?, h(tk[2])?, h(tk[3])?, d(tk[4])?)),
+                ("d", 3) => calls.push(Call::Default(d(tk[1])?, d(tk[2])?)),
+                ("f", 2) => calls.push(Call::Final(d(tk[1])?)),
+                _ => return Err(format!("bad line {}", line)),
+            }
+        }
+        Ok(Spec { init, calls })
+    }
+
+    /// states in order of first mention (the initial state first), with their transitions
+    pub fn table(&self) -> Vec<StateSpec> {
+        let mut labels: Vec<u32> = vec![self.init];
+        let mut idx = |l: u32, labels: &mut Vec<u32>| -> usize {
+            match labels.iter().position(|&x| x == l) {
+                Some(i) => i,
+                None => {
+                    labels.push(l);
+                    labels.len() - 1
+                }
+            }
+        };
+        let mut states: Vec<StateSpec> = vec![StateSpec { label: self.init, ..Default::default() }];
+        for c in &self.calls {
+            let mut touch = |l: u32, states: &mut Vec<StateSpec>, labels: &mut Vec<u32>| -> usize {
+                let i = idx(l, labels);
+                while states.len() <= i {
+                    let k = states.len();
+                    states.push(StateSpec { label: labels[k], ..Default::default() });
+                }
+                i
+            };
+            match c {
+                Call::Trans(s, a, b, t) => {
+                    let i = touch(*s, &mut states, &mut labels);
+                    let j = touch(*t, &mut states, &mut labels);
+                    states[i].trans.push((*a, *b, j));
+                }
+                Call::Default(s, t) => {
+                    let i = touch(*s, &mut states, &mut labels);
+                    let j = touch(*t, &mut states, &mut labels);
+                    states[i].default = Some(j);
+                }
+                Call::Final(s) => {
+                    let i = touch(*s, &mut states, &mut labels);
+                    states[i].is_final = true;
+                }
+            }
+        }
+        states
+    }
+}
+
+impl StateSpec {
+    /// successor for character c as the caller specified it: the explicit transition covering c, else the default
+    pub fn succ(&self, c: u32) -> Option<usize> {
+        for &(a, b, t) in &self.trans {
+            if a <= c && c <= b {
+                return Some(t);
+            }
+        }
+        self.default
+    }
+
+    pub fn uncovered(&self) -> bool {
+        let mut iv: Vec<(u32, u32)> = self.trans.iter().map(|&(a, b, _)| (a, b)).collect();
+        iv.sort_unstable();
+        let mut c: u64 = 0;
+        for (a, b) in iv {
+            if (a as u64) > c {
+                return true;
+            }
+            c = c.max(b as u64 + 1);
+        }
+        c <= MAXC as u64
+    }
+
+    pub fn classify(&self) -> (Class, &'static str) {
+        let mut overlap_same = false;
+        for i in 0..self.trans.len() {
+            for j in (i + 1)..self.trans.len() {
+                let (a, b, t) = self.trans[i];
+                let (c, d, u) = self.trans[j];
+                if !(b < c || d < a) {
+                    if t != u {
+                        return (Class::MustReject, "conflict");
+                    }
+                    overlap_same = true;
+                }
+            }
+        }
+        let unc = self.uncovered();
+        if unc && self.default.is_none() {
+            return (Class::MustReject, "incomplete");
+        }
+        if overlap_same {
+            return (Class::Grey, "overlap-same-target");
+        }
+        if !unc && self.default.is_some() {
+            return (Class::Grey, "default-on-covered");
+        }
+        (Class::MustAccept, "well-formed")
+    }
+}
+
+pub fn classify(states: &[StateSpec]) -> (Class, &'static str) {
+    let mut grey = None;
+    for s in states {
+        match s.classify() {
+            (Class::MustReject, why) => return (Class::MustReject, why),
+            (Class::Grey, why) => grey = Some(why),
+            _ => {}
+        }
+    }
+    match grey {
+        Some(w) => (Class::Grey, w),
+        None => (Class::MustAccept, "well-formed"),
+    }
+}
+
+/// characters at which the specified successor function may change
+pub fn spec_points(states: &[StateSpec]) -> Vec<u32> {
+    let mut v = Vec::new();
+    for s in states {
+        for &(a, b, _) in &s.trans {
+            v.push(a);
+            v.push(b);
+        }
+    }
+    v.sort_unstable();
+    v.dedup();
+    v
+}
+
+// ------------------------------------------------------------------ generators
+
+fn labels(rng: &mut Rng, n: usize) -> Vec<u32> {
+    // arbitrary distinct u32 labels, not in index order
+    let mut v: Vec<u32> = Vec::new();
+    while v.len() < n {
+        let l = match rng.below(3) {
+            0 => rng.below(20) as u32,
+            1 => 1000 + rng.below(50) as u32,
+            _ => rng.next() as u32,
+        };
+        if !v.contains(&l) {
+            v.push(l);
+        }
+    }
+    v
+}
+
+fn cut_points(rng: &mut Rng, k: usize) -> Vec<u32> {
+    let mut v: Vec<u32> = (0..k)
+        .map(|_| match rng.below(6) {
+            0 => rng.below(4) as u32,
+            1 => MAXC - rng.below(4) as u32,
+            2 | 3 => 0x61 + rng.below(8) as u32,
+            _ => rng.below(0x30000) as u32,
+        })
+        .collect();
+    v.sort_unstable();
+    v.dedup();
+    v
+}
+
+/// a random complete deterministic table: states x (disjoint intervals -> target, optional default)
+pub struct Table {
+    pub n: usize,
+    pub rows: Vec<(Vec<(u32, u32, usize)>, Option<usize>)>,
+    pub fin: Vec<bool>,
+}
+
+pub fn random_table(rng: &mut Rng, n: usize, shared_cuts: bool) -> Table {
+    let ntargets = 1 + rng.usize(n.min(3));
+    let targets: Vec<usize> = (0..ntargets).map(|_| rng.usize(n)).collect();
+    let kc = 2 + rng.usize(6);
+    let common = cut_points(rng, kc);
+    let mut rows = Vec::new();
+    for _ in 0..n {
+        let kk = rng.usize(7);
+        let cuts = if shared_cuts && rng.chance(2, 3) { common.clone() } else { cut_points(rng, kk) };
+        let mut tr: Vec<(u32, u32, usize)> = Vec::new();
+        let dense = rng.chance(1, 4);
+        let few_targets = rng.chance(1, 2);
+        let mut lo = 0u32;
+        let mut bounds: Vec<(u32, u32)> = Vec::new();
+        let mut done = false;
+        for &c in &cuts {
+            if c >= lo {
+                bounds.push((lo, c));
+                if c == MAXC {
+                    done = true;
+                    break;
+                }
+                lo = c + 1;
+            }
+        }
+        if !done {
+            bounds.push((lo, MAXC));
+        }
+        let mut uncovered = false;
+        for (a, b) in bounds {
+            if dense || rng.chance(1, 2) {
+                let t = if few_targets { *rng.pick(&targets) } else { rng.usize(n) };
+                tr.push((a, b, t));
+            } else {
+                uncovered = true;
+            }
+        }
+        let def = if uncovered { Some(if few_targets { *rng.pick(&targets) } else { rng.usize(n) }) } else { None };
+        rows.push((tr, def));
+    }
+    let fin: Vec<bool> = match rng.below(8) {
+        0 => vec![true; n],
+        1 => vec![false; n],
+        _ => (0..n).map(|_| rng.chance(1, 3)).collect(),
+    };
+    Table { n, rows, fin }
+}
+
+/// structured families whose equivalent states are separated only by long words
+pub fn structured_table(rng: &mut Rng, thorough: bool) -> Table {
+    let maxn = if thorough { 40 } else { 16 };
+    let kind = rng.below(6);
+    let letters: Vec<(u32, u32)> = {
+        let k = 2 + rng.usize(4);
+        let cuts = cut_points(rng, k);
+        let mut v = Vec::new();
+        for c in cuts {
+            v.push((c, (c + rng.below(3) as u32).min(MAXC)));
+        }
+        v.sort_unstable();
+        let mut out: Vec<(u32, u32)> = Vec::new();
+        for (a, b) in v {
+            if out.last().map_or(true, |l| l.1 < a) {
+                out.push((a, b));
+            }
+        }
+        out
+    };
+    let nl = letters.len();
+    let mut n;
+    let mut delta: Vec<Vec<usize>>; // state x letter -> target ; letter nl = "everything else"
+    let mut fin: Vec<bool>;
+    match kind {
+        0 | 1 => {
+            // cycle / mod-k counter on letter 0, other letters keep the state (or reset)
+            let k = 2 + rng.usize(maxn / 2);
+            n = k;
+            delta = (0..k).map(|s| (0..=nl).map(|l| if l == 0 { (s + 1) % k } else if rng.chance(1, 6) { 0 } else { s }).collect()).collect();
+            fin = (0..k).map(|s| s == k - 1).collect();
+            if kind == 1 {
+                // product with a mod-2 counter on letter 1 (if any)
+                let k2 = 2;
+                let mut d2 = Vec::new();
+                let mut f2 = Vec::new();
+                for s in 0..k {
+                    for u in 0..k2 {
+                        let row: Vec<usize> = (0..=nl)
+                            .map(|l| {
+                                let ns = delta[s][l];
+                                let nu = if l == 1 % (nl + 1) { (u + 1) % k2 } else { u };
+                                ns * k2 + nu
+                            })
+                            .collect();
+                        d2.push(row);
+                        f2.push(fin[s] && u == 0);
+                    }
+                }
+                n = k * k2;
+                delta = d2;
+                fin = f2;
+            }
+        }
+        2 => {
+            // chain ending in a sink: states separated by words of length ~ n
+            let k = 3 + rng.usize(maxn - 3);
+            n = k;
+            delta = (0..k).map(|s| (0..=nl).map(|l| if l == 0 { (s + 1).min(k - 1) } else { k - 1 }).collect()).collect();
+            fin = (0..k).map(|s| s == k - 2).collect();
+        }
+        3 => {
+            // two copies of a small random automaton glued by a fresh initial state: every state has a twin
+            let k = 2 + rng.usize(maxn / 3);
+            let base: Vec<Vec<usize>> = (0..k).map(|_| (0..=nl).map(|_| rng.usize(k)).collect()).collect();
+            let bf: Vec<bool> = (0..k).map(|_| rng.chance(1, 3)).collect();
+            n = 2 * k + 1;
+            delta = Vec::new();
+            fin = Vec::new();
+            for c in 0..2 {
+                for s in 0..k {
+                    // cross edges into the other copy keep the language of the twin identical
+                    delta.push(base[s].iter().map(|&t| if rng.chance(1, 3) { (1 - c) * k + t } else { c * k + t }).collect());
+                    fin.push(bf[s]);
+                }
+            }
+            delta.push((0..=nl).map(|l| if l % 2 == 0 { 0 } else { k }).collect());
+            fin.push(false);
+        }
+        4 => {
+            // binary counter: states = bit patterns, letter 0 increments, distinguishing needs long words
+            let bits = 2 + rng.usize(if thorough { 4 } else { 3 });
+            n = 1 << bits;
+            delta = (0..n).map(|s| (0..=nl).map(|l| if l == 0 { (s + 1) % n } else if l == 1 { (s * 2) % n } else { s }).collect()).collect();
+            fin = (0..n).map(|s| s == n - 1).collect();
+        }
+        _ => {
+            // random dense automaton over many letters (rows without default, colliding exceptions)
+            n = 3 + rng.usize(maxn - 3);
+            delta = (0..n).map(|_| (0..=nl).map(|_| rng.usize(n.min(4))).collect()).collect();
+            fin = (0..n).map(|_| rng.chance(1, 2)).collect();
+        }
+    }
+    // optional: add predecessor-less states (unreachable), including inequivalent ones
+    let extra = if rng.chance(1, 2) { rng.usize(4) } else { 0 };
+    for e in 0..extra {
+        delta.push((0..=nl).map(|_| rng.usize(n)).collect());
+        fin.push(if e % 2 == 0 { rng.chance(1, 2) } else { true });
+    }
+    let total = n + extra;
+    // turn into rows: explicit transitions for letters, default for the rest; sometimes make the row dense
+    let mut rows = Vec::new();
+    for s in 0..total {
+        let mut tr = Vec::new();
+        let def = delta[s][nl];
+        let explicit_default_target = rng.chance(1, 3);
+        for (l, &(a, b)) in letters.iter().enumerate() {
+            if delta[s][l] != def || explicit_default_target || rng.chance(1, 4) {
+                tr.push((a, b, delta[s][l]));
+            }
+        }
+        rows.push((tr, Some(def)));
+    }
+    // letters may tile nothing: default always needed unless the letters cover the alphabet (they never do here)
+    Table { n: total, rows, fin }
+}
+
+/// emit builder calls for a table, in shuffled order, with arbitrary labels; `init` is state 0 of the table
+pub fn spec_of_table(rng: &mut Rng, t: &Table) -> Spec {
+    let lab = labels(rng, t.n);
+    let mut calls = Vec::new();
+    for s in 0..t.n {
+        for &(a, b, tg) in &t.rows[s].0 {
+            calls.push(Call::Trans(lab[s], a, b, lab[tg]));
+        }
+        if let Some(d) = t.rows[s].1 {
+            calls.push(Call::Default(lab[s], lab[d]));
+        }
+        if t.fin[s] {
+            calls.push(Call::Final(lab[s]));
+        }
+    }
+    rng.shuffle(&mut calls);
+    // states that have neither transitions nor default nor finality would never be mentioned: they do not
+    // exist for the builder either, which is fine (they are unreachable and absent)
+    Spec { init: lab[0], calls }
+}
+
+pub fn gen_wellformed(rng: &mut Rng, thorough: bool) -> Spec {
+    if rng.chance(2, 5) {
+        let t = structured_table(rng, thorough);
+        spec_of_table(rng, &t)
+    } else {
+        let big = thorough && rng.chance(1, 4);
+        let n = 1 + rng.usize(if big { 40 } else { 12 });
+        let shared = rng.chance(1, 2);
+        let t = random_table(rng, n, shared);
+        spec_of_table(rng, &t)
+    }
+}
+
+/// break a well-formed spec: what kind of defect was injected is returned
+pub fn gen_broken(rng: &mut Rng, thorough: bool) -> (Spec, &'static str) {
+    let mut spec = gen_wellformed(rng, thorough);
+    let kind = rng.below(6);
+    match kind {
+        0 | 1 => {
+            // incomplete: drop the default of a state that needs it (prefer states whose explicit
+            // transitions all go to one target: the shape that cleanup-before-validation accepts)
+            let defs: Vec<usize> = spec.calls.iter().enumerate().filter(|(_, c)| matches!(c, Call::Default(..))).map(|(i, _)| i).collect();
+            if !defs.is_empty() {
+                let i = *rng.pick(&defs);
+                spec.calls.remove(i);
+            }
+            (spec, "dropped-default")
+        }
+        2 => {
+            // incomplete by construction: one transition (or several to one target) and no default
+            let l = labels(rng, 3);
+            let mut calls = vec![Call::Trans(l[0], 0x61, 0x61 + rng.below(3) as u32, l[1]), Call::Default(l[1], l[1])];
+            if rng.chance(1, 2) {
+                calls.push(Call::Trans(l[0], 0x70, 0x71, l[1]));
+            }
+            if rng.chance(1, 2) {
+                calls.push(Call::Trans(l[0], 0x80, 0x81, l[2]));
+                calls.push(Call::Default(l[2], l[1]));
+            }
+            if rng.chance(1, 2) {
+                calls.push(Call::Final(l[1]));
+            }
+            rng.shuffle(&mut calls);
+            (Spec { init: l[0], calls }, "single-target-no-default")
+        }
+        3 | 4 => {
+            // conflict: overlapping label with a different target; often the other target is the state's default
+            let tr: Vec<usize> = spec.calls.iter().enumerate().filter(|(_, c)| matches!(c, Call::Trans(..))).map(|(i, _)| i).collect();
+            if tr.is_empty() {
+                return gen_broken(rng, thorough);
+            }
+            let i = *rng.pick(&tr);
+            if let Call::Trans(s, a, b, t) = spec.calls[i].clone() {
+                let table = spec.table();
+                let st = table.iter().find(|x| x.label == s).unwrap();
+                let all_labels: Vec<u32> = table.iter().map(|x| x.label).collect();
+                let other: Vec<u32> = all_labels.iter().copied().filter(|&x| x != t).collect();
+                let mut tg = if other.is_empty() { t.wrapping_add(1) } else { *rng.pick(&other) };
+                if let Some(d) = st.default {
+                    if table[d].label != t && rng.chance(2, 3) {
+                        tg = table[d].label; // conflict with a transition into the default target
+                    }
+                }
+                let x = a + rng.below((b - a + 1) as u64) as u32;
+                let lo = x.saturating_sub(rng.below(2) as u32);
+                let hi = (x + rng.below(2) as u32).min(MAXC);
+                let pos = rng.usize(spec.calls.len() + 1);
+                spec.calls.insert(pos, Call::Trans(s, lo, hi, tg));
+                // the new target must itself be a complete state: give it a default if it is new
+                if !all_labels.contains(&tg) {
+                    spec.calls.push(Call::Default(tg, tg));
+                }
+            }
+            (spec, "conflict")
+        }
+        _ => {
+            // a state mentioned only as a target
+            let tr: Vec<usize> = spec.calls.iter().enumerate().filter(|(_, c)| matches!(c, Call::Trans(..))).map(|(i, _)| i).collect();
+            if tr.is_empty() {
+                return gen_broken(rng, thorough);
+            }
+            let i = *rng.pick(&tr);
+            if let Call::Trans(s, a, b, _) = spec.calls[i].clone() {
+                spec.calls[i] = Call::Trans(s, a, b, 0xDEAD0000 + rng.below(100) as u32);
+            }
+            (spec, "dangling-target")
+        }
+    }
+}
+
+pub fn gen_grey(rng: &mut Rng, thorough: bool) -> Spec {
+    let mut spec = gen_wellformed(rng, thorough);
+    let tr: Vec<usize> = spec.calls.iter().enumerate().filter(|(_, c)| matches!(c, Call::Trans(..))).map(|(i, _)| i).collect();
+    if let Some(&i) = tr.first() {
+        if let Call::Trans(s, a, b, t) = spec.calls[i].clone() {
+            if rng.chance(1, 2) {
+                // overlapping label with the same target
+                let x = a + rng.below((b - a + 1) as u64) as u32;
+                spec.calls.push(Call::Trans(s, x, (x + 1).min(MAXC).max(x), t));
+            } else {
+                // default declared although the labels cover everything
+                let l = labels(rng, 2);
+                spec.calls.push(Call::Trans(l[0], 0, MAXC, t));
+                spec.calls.push(Call::Default(l[0], t));
+            }
+        }
+    }
+    spec
+}
